@@ -76,12 +76,14 @@ REQUIRED_BINS = ["fs12_session", "fs60_session", "hs_session", "chirp_packet_see
                  "control_stalled", "address_changed", "bus_reset_mid_session", "host_timeout_minimal",
                  "tx_stall_before_first_byte", "tx_stall_mid_packet", "data_then_handshake_sources_alternate",
                  "handshake_right_after_data_packet", "wire_fault_session",
-                 "host_packet_min_gap_after_device_packet", "zlp_transmitted", "max_size_data_packet"]
+                 "host_packet_min_gap_after_device_packet", "zlp_transmitted", "max_size_data_packet",
+                 "rx_active_trails_last_byte", "rx_active_trails_by_3_or_more", "data_packet_above_64_bytes", "out_data_above_64_bytes"]
 # (bin "answer_after_damaged_packet_unjudged" is informative only: whether a device answers after a damaged packet at all
 #  depends on the device, so it must not be able to make the run inconclusive)
 REQUIRED_EVENTS = ["cycles_monitored", "device_packets", "data_packets", "handshake_packets", "host_packets",
                    "solicitation_checks", "wellformed_checks", "source_data_cycles", "source_handshake_cycles",
-                   "source_chirp_cycles", "packets_single_source_checked", "rx_active_cycles"]
+                   "source_chirp_cycles", "packets_single_source_checked", "rx_active_cycles", "payload_vs_offered_checks",
+                   "stream_bytes_offered"]
 ASSUMPTIONS = ["legal host: a packet is sent only after the device's packet has ended or after the bus time-out (>= 18 bit times FS, >= 816 HS), "
                ">= 2 idle cycles between packets, handshakes within the device's time-out",
                "answers that follow a deliberately damaged host packet are not judged for solicitation",
@@ -134,12 +136,13 @@ def run_case(rng, tier, res):
     from usb_protocol.types import USBTransferType
 
     # ------------------------------------------------------------------ configuration
-    mode = rng.choice(["fs12"] * 13 + ["fs60"] * 4 + ["hs"] * 3)
+    mode = rng.choice(["fs12"] * 12 + ["fs60"] * 4 + ["hs"] * 4)
     numbers = rng.sample(range(1, 16), 5)
     n_in = rng.choice([1, 1, 2])
     n_out = rng.choice([1, 1, 2])
-    in_eps = [(numbers[i], rng.choice([8, 16, 32, 64])) for i in range(n_in)]
-    out_eps = [(numbers[2 + i] if rng.random() < 0.6 else numbers[i % n_in], rng.choice([8, 16, 64])) for i in range(n_out)]
+    in_sizes, out_sizes = ([8, 16, 32, 64], [8, 16, 64]) if mode != "hs" else ([64, 512, 512, 128], [64, 512, 256])
+    in_eps = [(numbers[i], rng.choice(in_sizes)) for i in range(n_in)]
+    out_eps = [(numbers[2 + i] if rng.random() < 0.6 else numbers[i % n_in], rng.choice(out_sizes)) for i in range(n_out)]
     if len({n for n, _ in out_eps}) != len(out_eps):
         out_eps = out_eps[:1]
     sig_ep = numbers[4]
@@ -152,6 +155,7 @@ def run_case(rng, tier, res):
     feed = {n: rng.choice(["dense", "dense", "sparse", "never"]) for n, _ in in_eps}
     consume = {n: rng.choice(["always", "always", "random", "stalled"]) for n, _ in out_eps}
     wire_faults = rng.random() < 0.3
+    trailing = rng.random() < 0.6          # rx_active outlasts the last byte of host packets by 0..6 cycles
     avoid_blockram = rng.random() < 0.35
     order_seed = rng.randrange(1 << 16)
     timeout_min = {"fs12": 18, "fs60": 90, "hs": 102}[mode]
@@ -159,7 +163,7 @@ def run_case(rng, tier, res):
     bus_timeout = rng.choice([timeout_min, timeout_min, timeout_min + 2, rng.randint(timeout_min, timeout_max), timeout_max])
 
     cfg = {"mode": mode, "in": in_eps, "out": out_eps, "sig": (sig_ep, sig_width), "gap_profile": gap_profile,
-           "ready_profile": ready_profile, "feed": feed, "consume": consume, "wire_faults": wire_faults, "bus_timeout": bus_timeout, "avoid_blockram": avoid_blockram}
+           "ready_profile": ready_profile, "feed": feed, "consume": consume, "wire_faults": wire_faults, "bus_timeout": bus_timeout, "avoid_blockram": avoid_blockram, "rx_active_trailing": trailing}
     res.desc = dict(cfg, ops=[])
     res.sig(sorted(cfg.items(), key=str), order_seed)
     res.bin(mode + "_session")
@@ -205,6 +209,8 @@ def run_case(rng, tier, res):
     taps_ok = len(src_valid) == 3
     if taps_ok:
         b.watch(*src_valid)
+        gen_stream = src_objs[1].stream
+        b.watch(gen_stream.valid, gen_stream.ready, gen_stream.payload)
 
     class Host(UTMIHost):
         """host model + wire log with meta data (own file: the shared host is not edited)"""
@@ -218,6 +224,14 @@ def run_case(rng, tier, res):
             start = self.b.cycle + 1
             damaged = self.damage_next or kw.get("abort_after") is not None
             self.damage_next = False
+            if "trail" not in kw and trailing:
+                # UTMI: RXActive may stay high for some cycles after the last RXValid byte (EOP detection); the packet is
+                # "in progress" until it falls, so the device's turn-around must be counted from there
+                kw["trail"] = rng.choice([0, 1, 2, 3, 4, 6])
+                if kw["trail"]:
+                    res.bin("rx_active_trails_last_byte")
+                    if kw["trail"] >= 3:
+                        res.bin("rx_active_trails_by_3_or_more")
             yield from UTMIHost.send_raw(self, data, **kw)
             _, sent = self.sent[-1]
             self.hlog.append({"start": start, "end": self.b.cycle - 1, "bytes": bytes(sent), "addr": self.dev_addr, "damaged": damaged})
@@ -244,7 +258,7 @@ def run_case(rng, tier, res):
         return [t for c, t in ops_all if c <= cycle][-6:]
 
     dpk = []                      # device packets: first_valid, end, data, stalls, src (set), src_changed, rx_overlap
-    st = {"cur": None, "stall": 0, "ready_prev": 0}
+    st = {"cur": None, "stall": 0, "ready_prev": 0, "offered": []}
     reset_phases = []             # [start, end] cycles in which the harness drives a bus reset (chirp allowed)
 
     def in_reset_phase(c):
@@ -273,10 +287,16 @@ def run_case(rng, tier, res):
         if valid and n == 0 and taps_ok:
             raise RuntimeError("monitor blind: tx_valid high at cycle %d but none of the three tapped transmitters drives it" % b.cycle)
         if n and not valid:
-            raise RuntimeError("monitor blind: a tapped transmitter is valid at cycle %d but UTMI tx_valid is low" % b.cycle)
+            # A transmitter asks but the multiplexer does not raise tx_valid: nothing is put on the bus in this cycle.  The
+            # statement is about what IS transmitted, so this alone is no violation (a missing answer is C03/C04/C07...);
+            # if it happens inside a packet, the bus sees a split / truncated packet, which the packet rules below catch.
+            res.event("transmitter_valid_not_on_bus_cycles")
         if valid and rxa:
             viol(b.cycle, "tx_while_rx_active", "cycle %d: tx_valid while a host packet is still being received (rx_active); source %s; ops=%s"
                           % (b.cycle, [SRC_NAMES[i] for i in range(3) if s[i]], res.desc["ops"][-6:]))
+        if taps_ok and b.get(gen_stream.valid) and b.get(gen_stream.ready):
+            st["offered"].append(b.get(gen_stream.payload))       # a byte the endpoints handed to the data packet generator
+            res.event("stream_bytes_offered")
         if valid:
             cur = st["cur"]
             if cur is None:
@@ -297,6 +317,9 @@ def run_case(rng, tier, res):
                 st["stall"] += 1
         elif st["cur"] is not None:
             st["cur"]["end"] = b.cycle - 1
+            if st["cur"]["src"][1]:
+                st["cur"]["offered"] = bytes(st["offered"])      # everything offered since the previous data-generator packet
+                st["offered"] = []
             dpk.append(st["cur"])
             st["cur"] = None
         st["ready_prev"] = b.get(utmi.tx_ready)
@@ -646,6 +669,8 @@ def run_case(rng, tier, res):
         repeat = rng.random() < 0.15
         pid = U.DATA1 if (tog_out[n] ^ (1 if repeat else 0)) else U.DATA0
         log("OUT", n, ln, "repeat" if repeat else "")
+        if ln > 64:
+            res.bin("out_data_above_64_bytes")
         r = yield from op_out(host.dev_addr, n, pid, bytes(rng.randrange(256) for _ in range(ln)))
         if is_hs(r, U.ACK) and not repeat:
             tog_out[n] ^= 1
@@ -751,6 +776,7 @@ def run_case(rng, tier, res):
                    ("set_address", 3)]
         if mode == "hs":
             weights.append(("ping", 12))
+            weights += [("bulk_in", 10), ("bulk_out", 6)]      # packets above 64 bytes exist only here
         else:
             weights.append(("bus_reset", 2))
         names = [n for n, w in weights for _ in range(w)]
@@ -944,6 +970,16 @@ def run_case(rng, tier, res):
             res.event("handshake_packets")
         elif kind == "data":
             res.event("data_packets")
+            # the CRC16 above is computed by the device over the bytes behind the multiplexer, so a payload that was replaced
+            # on the way still carries a "correct" CRC: compare with what the endpoints handed to the data packet generator
+            if p["src"] == (0, 1, 0) and p["src_changed"] is None and "offered" in p:
+                res.event("payload_vs_offered_checks")
+                if bytes(info["payload"]) != p["offered"]:
+                    viol(p["first_valid"], "data_payload_differs_from_bytes_offered_to_generator",
+                         "data packet %s... (%d payload bytes) but the endpoint stream handed %d bytes %s... to the data packet generator; ops=%s"
+                         % (data[:16].hex(), len(info["payload"]), len(p["offered"]), p["offered"][:16].hex(), ops_at(p["first_valid"])))
+            if len(info["payload"]) > 64:
+                res.bin("data_packet_above_64_bytes")
             if len(info["payload"]) == 0:
                 res.bin("zlp_transmitted")
             if len(info["payload"]) == 64:
